@@ -7,7 +7,8 @@ repo=${VP_RUN_REPO:-${VERIF_REPO:-}}
 export VERIF_REPO="$repo"
 (cd lean && lake build >/dev/null 2>&1)
 for d in seeded/${2:-*}/; do
-  name=$(basename "$d"); prop=$(echo "$name" | cut -c1-3)
+  name=$(basename "$d")
+  prop=$(python3 -c "import json,sys; m=json.load(open('$d/meta.json')); print(m.get('property') or m['properties'][0])" 2>/dev/null || echo "$name" | cut -c1-3)
   git -C "$repo" apply "$PWD/$d/patch.diff" 2>/dev/null || { echo "$name: patch does not apply"; continue; }
   for s in $1; do
     out=$(VERIF_SEED=$s ./check $prop 2>&1 | grep -E '^(OK|VIOLATION|FAULT)' | tail -1)
